@@ -253,3 +253,8 @@ def run(ck, F, E):
                    pl[0].span)
         else:
             ck.ok("C08:EFFECT:input-reenter:parse_lvalue", "re-evaluation on REENTER", "the target has no effects beyond the cursor")
+
+    # ---- a reply item "suits" a numeric target exactly when str::parse::<f64> accepts it (the same classifier the DATA
+    # parser uses; replies go through DataParser): no extra condition may turn `+5`, `.5` or `1E3` into text
+    from props import C14
+    C14.data_number_classifier(ck, F, "C08")
